@@ -27,6 +27,8 @@ mutual
   def EVal.sized : EVal → Bool
     | .cell _ => true
     | .date _ => true
+    | .tdelta _ => true
+    | .nat => true
     | .list xs => EVal.sizedList xs
     | .tuple xs => EVal.sizedList xs
     | .dict _ kvs => EVal.sizedKVs kvs
@@ -55,6 +57,8 @@ mutual
   theorem norm_sized : ∀ a : EVal, a.sized = true → a.norm.sized = true
     | .cell _, _ => rfl
     | .date _, _ => rfl
+    | .tdelta _, _ => rfl
+    | .nat, _ => rfl
     | .list xs, h => by
         simp only [EVal.norm, EVal.sized] at h ⊢; exact normList_sized xs h
     | .tuple xs, h => by
@@ -224,6 +228,8 @@ mutual
   theorem eqNR_eq : ∀ (a b : EVal), a.sized = true → b.sized = true → eqNR a b = .ok (eqN a b)
     | .cell _, b, _, _ => by cases b <;> simp [eqNR, eqN]
     | .date _, b, _, _ => by cases b <;> simp [eqNR, eqN]
+    | .tdelta _, b, _, _ => by cases b <;> simp [eqNR, eqN]
+    | .nat, b, _, _ => by cases b <;> simp [eqNR, eqN]
     | .list xs, b, ha, hb => by
         cases b <;> try (simp [eqNR, eqN]; done)
         rename_i ys
@@ -362,6 +368,8 @@ mutual
   theorem eqNR_total : ∀ (a b : EVal), ∃ v, eqNR a b = .ok v
     | .cell _, b => by cases b <;> (simp only [eqNR]; exact ⟨_, rfl⟩)
     | .date _, b => by cases b <;> (simp only [eqNR]; exact ⟨_, rfl⟩)
+    | .tdelta _, b => by cases b <;> (simp only [eqNR]; exact ⟨_, rfl⟩)
+    | .nat, b => by cases b <;> (simp only [eqNR]; exact ⟨_, rfl⟩)
     | .list xs, b => by
         cases b <;> try (simp only [eqNR]; exact ⟨_, rfl⟩; done)
         rename_i ys
